@@ -74,7 +74,7 @@ PROP = {
                     "Tyme/Facts/TermsFact.lean", "Tyme/Facts/Preds.lean", "Tyme/Basic/Packed.lean"],
     "gen": [gen_eph],
     "streams": [
-        {"name": "c06.days", "args_thorough": ["all"]},   # every civil day -> (term, day index)
+        {"name": "c06.days", "args_thorough": ["all"], "extra_years": True},   # every civil day -> (term, day index)
         {"name": "c06.inc", "model": False},              # the spacing clause evaluated on the implementation, all 239,976 adjacent pairs
         {"name": "c06.next", "args_thorough": ["all"]},   # stepping from every (year, index), construction with wrapped indices
     ],
